@@ -75,6 +75,8 @@ type Ctl struct {
 	trace    []string
 	steps    int
 	MaxSteps int
+	// DeferAt: a decision byte >= DeferAt leaves all tickets parked (Settle(false)).
+	DeferAt int
 	// StepLimit is set when MaxSteps was exceeded.
 	StepLimit bool
 
@@ -188,6 +190,12 @@ func Run(t *testing.T, parkable []string, schedule []byte, body func(c *Ctl)) (c
 		depth:    map[uint64]int{},
 		sched:    schedule,
 		MaxSteps: 20000,
+		DeferAt:  192,
+	}
+	if len(schedule) > 0 {
+		// the first schedule byte selects how eager the case is to overlap operations
+		c.DeferAt = []int{192, 64, 128, 224}[int(schedule[0])&3]
+		c.sched = schedule[1:]
 	}
 	for _, p := range parkable {
 		c.parkable[p] = true
@@ -314,6 +322,7 @@ func (c *Ctl) next() int {
 	return 0
 }
 
+
 // DecisionsUsed returns how many schedule bytes were consumed.
 func (c *Ctl) DecisionsUsed() int { return c.si }
 
@@ -351,15 +360,15 @@ func (c *Ctl) Settle(full bool) bool {
 			c.StepLimit = true
 			return false
 		}
-		n := len(p)
-		if !full {
-			n++
-		}
-		d := c.next() % n
-		if d == len(p) {
+		// decision byte: >= 192 means "leave everything parked and go on with
+		// the next operation" (only when !full); otherwise it selects a ticket.
+		// 0 always selects the first ticket, so shrinking drives the schedule
+		// towards a sequential run.
+		d := c.next()
+		if !full && d >= c.DeferAt {
 			return false
 		}
-		c.Grant(p[d])
+		c.Grant(p[d%len(p)])
 	}
 }
 
